@@ -1,0 +1,49 @@
+//go:build verif
+
+// Contracts for package key (comment-only; compiled only with the build tag "verif",
+// read by /verif/engine). Property C12.
+
+package key
+
+// The stored form of a key of type t with user bytes k, laid out in a byte stream d from position
+// base: [version=1, 0, 0, 0][t][k...]. Stated in both directions (per key byte / per stream position).
+//@ pure func encodedAt(d seq[byte], base Int, t Int, k []byte) bool = d[base] == 1 && d[base+1] == 0 && d[base+2] == 0 && d[base+3] == 0 && d[base+4] == t && (forall i int :: 0 <= i && i < len(k) ==> d[base+5+i] == k[i]) && (forall j int :: base+5 <= j && j < base+5+len(k) ==> d[j] == k[j-base-5])
+
+//@ func (*keyV1).Encode
+//@   params k, writer
+//@   results n, err
+//@   requires k != nil && writer != nil
+//@   ensures [C12.v1.len]  err == nil ==> n == 1 + len(k.key) && writer.slen == old(writer.slen) + n
+//@   ensures [C12.v1.type] err == nil ==> writer.sdata[old(writer.slen)] == k.keyType
+//@   ensures [C12.v1.body] err == nil ==> forall j int :: old(writer.slen) + 1 <= j && j < writer.slen ==> writer.sdata[j] == old(k.key[j - old(writer.slen) - 1])
+//@   ensures [C12.v1.keep] forall i int :: 0 <= i && i < old(writer.slen) ==> writer.sdata[i] == old(writer.sdata[i])
+//@   modifies writer.sdata, writer.slen
+
+// Encode appends exactly the stored form of the key to the writer's stream.
+//@ func (Encoder).Encode
+//@   params e, key
+//@   results n, err
+//@   requires e.w != nil && key != nil
+//@   ensures [C12.enc.ok]   old(key.version) == 0 || old(key.version) == 1 ==> (err == nil ==> n == 5 + len(key.Key) && e.w.slen == old(e.w.slen) + n)
+//@   ensures [C12.enc.form] err == nil ==> encodedAt(e.w.sdata, old(e.w.slen), key.KeyType, key.Key) && n == 5 + len(key.Key) && e.w.slen == old(e.w.slen) + n
+//@   ensures [C12.enc.keep] forall i int :: 0 <= i && i < old(e.w.slen) ==> e.w.sdata[i] == old(e.w.sdata[i])
+//@   ensures [C12.enc.ver]  err == nil ==> key.version == 1
+//@   modifies key.version, e.w.sdata, e.w.slen
+
+//@ func v1DecodeRaw
+//@   ensures [C12.dec.raw] len(raw) > 1 ==> result.keyType == raw[0] && sameSlice(result.key, raw[1:])
+//@   ensures len(raw) <= 1 ==> result.keyType == 0 && isNilSlice(result.key)
+//@   modifies nothing
+
+// DecodeBytes inverts the stored form: for raw == [1,0,0,0][t][k...] with at least one key byte it
+// returns type t and the key bytes k (as the sub-slice raw[5:]).
+//@ func DecodeBytes
+//@   results k, err
+//@   ensures [C12.dec.rt]  len(raw) >= 6 && raw[0] == 1 ==> err == nil && k.version == 1 && k.KeyType == raw[4] && sameSlice(k.Key, raw[5:])
+//@   ensures [C12.dec.hdr] len(raw) < 4 ==> err == ErrMissingKeyHeader
+//@   ensures [C12.dec.ver] len(raw) >= 4 && raw[0] != 1 ==> err == ErrUnknownKeyVersion
+//@   modifies nothing
+
+//@ func NewEncoder
+//@   ensures result != nil && fresh(result) && result.w == writer
+//@   modifies nothing
